@@ -121,7 +121,11 @@ func (o *ordLog) check(ex *vsched.Exec) {
 }
 
 func c03Body(build func(w *World, o *ordLog)) func(ex *vsched.Exec) string {
-	return nodeBody(func(w *World) {
+	return c03BodyL(gen.LogLevelDisabled, build)
+}
+
+func c03BodyL(level gen.LogLevel, build func(w *World, o *ordLog)) func(ex *vsched.Exec) string {
+	return nodeBodyL(level, func(w *World) {
 		o := &ordLog{msgs: map[string]*ordMsg{}}
 		build(w, o)
 		w.Check = func() {
@@ -239,6 +243,68 @@ func init() {
 				o.send("downpid(kill)", "k", 1, 2, func() error { return w.n.Kill(tpid) })
 			})
 			w.ex.ThreadLow("G", func() { g.Open() })
+		})})
+	}})
+	// a sender PROCESS mixing plain sends, prioritised sends and a failing send to one receiver
+	harn.Register(harn.Scenario{Property: "C03", Name: "process-sender-mix", Run: func(c *harn.Ctx) *harn.Result {
+		return harn.Explore(c, harn.Sched{QuickBound: 2, ThoroughBound: 3, Preempt: true, Cache: true, Body: c03Body(func(w *World, o *ordLog) {
+			pid := ordProbe(w, o, &vsched.Gate{}, false, gen.ProcessOptions{})
+			bogus := gen.PID{Node: w.n.Name(), ID: 999999, Creation: w.n.Creation()}
+			w.spawnProbe("P", probeCfg{onMsg: func(p *probe, from gen.PID, m any) error {
+				o.send("a1", "a", 1, 1, func() error { return p.Send(pid, "a1") })
+				o.send("a2", "a", 2, 2, func() error { return p.SendWithPriority(pid, "a2", gen.MessagePriorityHigh) })
+				p.SendWithPriority(bogus, "x", gen.MessagePriorityMax) // fails: unknown process
+				o.send("a3", "a", 3, 1, func() error { return p.Send(pid, "a3") })
+				p.SendWithPriority(bogus, "y", gen.MessagePriorityHigh)
+				o.send("a4", "a", 4, 3, func() error { return p.SendWithPriority(pid, "a4", gen.MessagePriorityMax) })
+				o.send("a5", "a", 5, 1, func() error { return p.SendPID(pid, "a5") })
+				return nil
+			}}, gen.ProcessOptions{})
+			w.ex.Thread("S1", func() { w.n.Send(w.pids["P"], "go") })
+			w.ex.Thread("S2", func() { o.send("b1", "b", 1, 1, func() error { return w.n.Send(pid, "b1") }) })
+		})})
+	}})
+	// a sender process whose own SendPriority option is High: everything it sends is one class
+	harn.Register(harn.Scenario{Property: "C03", Name: "process-sender-high", Run: func(c *harn.Ctx) *harn.Result {
+		return harn.Explore(c, harn.Sched{QuickBound: 2, ThoroughBound: 3, Preempt: true, Cache: true, Body: c03Body(func(w *World, o *ordLog) {
+			pid := ordProbe(w, o, &vsched.Gate{}, false, gen.ProcessOptions{})
+			w.spawnProbe("P", probeCfg{onMsg: func(p *probe, from gen.PID, m any) error {
+				o.send("a1", "a", 1, 2, func() error { return p.Send(pid, "a1") })
+				o.send("a2", "a", 2, 2, func() error { return p.SendPID(pid, "a2") })
+				o.send("a3", "a", 3, 1, func() error { return p.SendWithPriority(pid, "a3", gen.MessagePriorityNormal) })
+				o.send("a4", "a", 4, 2, func() error { return p.Send(pid, "a4") })
+				return nil
+			}}, gen.ProcessOptions{SendPriority: gen.MessagePriorityHigh})
+			w.ex.Thread("S1", func() { w.n.Send(w.pids["P"], "go") })
+			w.ex.Thread("S2", func() { o.send("b1", "b", 1, 1, func() error { return w.n.Send(pid, "b1") }) })
+		})})
+	}})
+	// the receiver is also a logger: log messages are the lowest class
+	harn.Register(harn.Scenario{Property: "C03", Name: "logger-lowest-class", Run: func(c *harn.Ctx) *harn.Result {
+		return harn.Explore(c, harn.Sched{QuickBound: 2, ThoroughBound: 3, Preempt: true, Cache: true, Body: c03BodyL(gen.LogLevelWarning, func(w *World, o *ordLog) {
+			stamp := func(name string) {
+				o.order = append(o.order, name)
+				o.begin = append(o.begin, o.tick())
+				vsched.Point(vsched.OpUser, 3)
+				o.end = append(o.end, o.tick())
+			}
+			pid := w.spawnProbe("R", probeCfg{
+				onMsg: func(p *probe, from gen.PID, m any) error { stamp(msgName(m)); return nil },
+				onLog: func(p *probe, m gen.MessageLog) error { stamp(fmt.Sprintf(m.Format, m.Args...)); return nil },
+			}, gen.ProcessOptions{})
+			if err := w.n.LoggerAddPID(pid, "vlogger", gen.LogLevelWarning); err != nil {
+				panic(err)
+			}
+			w.ex.Thread("L", func() {
+				for i := 1; i <= 3; i++ {
+					pl := fmt.Sprintf("l%d", i)
+					o.send(pl, "l", i, 0, func() error { w.n.Log().Warning(pl); return nil })
+				}
+			})
+			w.ex.Thread("S1", func() {
+				o.send("a1", "a", 1, 1, func() error { return w.n.Send(pid, "a1") })
+				o.send("a2", "a", 2, 2, func() error { return w.n.SendWithPriority(pid, "a2", gen.MessagePriorityHigh) })
+			})
 		})})
 	}})
 	// meta process: regular messages are FIFO per sender (the meta mailbox has no priority classes
